@@ -3,7 +3,7 @@ CONSTANTS
   MaxNodes = 5
   Shape = "any"
   SubRanges = TRUE
-  WithSkips = TRUE
+  WithSkips = FALSE
   Engine = "any"
   ExcludeFinding = TRUE
   Bug = "none"
